@@ -70,6 +70,11 @@ var $callDeferred = (deferred, jsErr, fromPanic) => {
             if (call === undefined) {
                 $curGoroutine.deferStack.pop();
                 if (panicking) {
+                    if ($curGoroutine.exit && $curGoroutine.deferStack.length < $curGoroutine.exitDepth) {
+                        /* A panic raised by a deferred call while runtime.Goexit() is unwinding the goroutine
+                           leaves this frame: it is not active any more when the panic is recovered. */
+                        $curGoroutine.exitDepth = $curGoroutine.deferStack.length;
+                    }
                     deferred = null;
                     movedToCallerFrame = true;
                     continue;
